@@ -1405,6 +1405,10 @@ func compileTableExpr(context *funcContext, reg int, ex *ast.TableExpr, ec *expc
 				num = FieldsPerFlush
 			}
 			c := (arraycount-1)/FieldsPerFlush + 1
+			if lastvararg {
+				// the multiple results follow the arraycount positional items already counted
+				c = arraycount/FieldsPerFlush + 1
+			}
 			b := num
 			if islast && isVarArgReturnExpr(field.Value) {
 				b = 0
